@@ -790,7 +790,8 @@ fn walk(
                     l.sd_lists.push(SdList {
                         at: path_str(p),
                         in_disclosure: l.disc_depth > 0,
-                        has_visible: names.len() > entries.iter().filter(|e| e.is_some()).count(),
+                        // (top-level iss / iat / exp are set aside before the issuer walks the claims: they do not count)
+                        has_visible: names.iter().filter(|k| !(p.is_empty() && ["iss", "iat", "exp"].contains(&k.as_str()))).count() > entries.iter().filter(|e| e.is_some()).count(),
                         entries,
                         name_ranks,
                     });
